@@ -299,6 +299,7 @@ def run_check(name, tier):
     digest = hashlib.sha256()
     survey, survey_ex = {}, {}
     raw_seen = set()
+    shrink_free = 0.0
     for r in results:
         nres += 1
         if r.get("harness_error"):
@@ -333,7 +334,14 @@ def run_check(name, tier):
             if unknown and len(reported) < 5 and raw_sig not in raw_seen and len(raw_seen) < 12:
                 raw_seen.add(raw_sig)
                 target = unknown[0]
-                small, v, sruns = shrink(name, r["case"], target, findings)
+                # minimisation is bounded in wall time as well (a safety net: the report must never be lost to a
+                # timeout); when the budget is spent the unminimised case is the replay file
+                if time.time() - t0 < float(os.environ.get("VERIF_SHRINK_WALL", 240)) + shrink_free:
+                    ts = time.time()
+                    small, v, sruns = shrink(name, r["case"], target, findings)
+                    shrink_free += 0 * (time.time() - ts)
+                else:
+                    small, v, sruns = r["case"], target, 0
                 sres = _run_one(name, small)
                 sig = (v["property"], v["oracle"], jdump(v["site"]))
                 if sig not in [x[0] for x in reported]:
